@@ -109,6 +109,18 @@ def enumerate_cases(tier, scope):
                         for raising in (None, 0, 2):
                             sched = [['settle'], ['rpc', 'pause', 'pm'], ['settle'], ['rpc', 'play', None], ['settle'], list(first), ['settle'], list(second), ['settle']]
                             yield {'program': cat[name], 'schedule': sched, 'comm': comm, 'mode': 'quiescent', 'controller': 'thread', 'cleanup_raises': raising}
+        # a listener that close()s the process from its termination notification (the last transition must still be
+        # announced), and a process class whose kill() answers with a future resolving to the library's answer
+        for name in ('wait1', 'chain', 'gated', 'async2'):
+            for comm in ('bare', 'loop'):
+                for msgs in ([], [['rpc', 'kill', 'km']], [['rpc', 'pause', 'pm'], ['rpc', 'kill', 'km']], [['bcast', 'kill', 'bk']], [['rpc', 'pause', 'p'], ['rpc', 'play', None]]):
+                    sched = [['settle']]
+                    for m in msgs:
+                        sched += [list(m), ['settle']]
+                    yield {'program': cat[name], 'schedule': sched, 'comm': comm, 'mode': 'quiescent', 'controller': 'thread', 'closing_listener': True}
+                    yield {'program': cat[name], 'schedule': sched, 'comm': comm, 'mode': 'quiescent', 'controller': 'thread', 'wrapped_kill': True}
+                    if msgs:
+                        yield {'program': cat[name], 'schedule': [list(m) for m in msgs], 'comm': comm, 'mode': 'instep', 'controller': 'thread', 'wrapped_kill': True}
         # one of the two subscriptions of the process times out: the other channel keeps working
         import itertools
 
@@ -155,6 +167,10 @@ def _cases(draw, tier):
     case = {'program': prog, 'schedule': sched, 'comm': draw(st.sampled_from(['bare', 'loop'])), 'mode': mode, 'controller': draw(st.sampled_from(['thread', 'coro']))}
     if draw(st.integers(0, 3)) == 0:
         case['cleanup_raises'] = draw(st.integers(0, 2))
+    if draw(st.integers(0, 4)) == 0:
+        case['closing_listener'] = True
+    if draw(st.integers(0, 4)) == 0:
+        case['wrapped_kill'] = True
     if draw(st.integers(0, 3)) == 0:
         case['fail'] = {'index': draw(st.integers(1, 6)), 'exc': draw(st.sampled_from(list(FAULTS))), 'count': draw(st.sampled_from([1, 1, 2, 3, 99]))}
     if mode == 'quiescent' and draw(st.integers(0, 4)) == 0:
@@ -203,7 +219,11 @@ class Side:
     def __init__(self, case, remote):
         self.case = case
         self.remote = remote
-        self.ex = Exec({'program': case['program'], 'pid': 'P1', 'cleanup_raises': case.get('cleanup_raises')}, attach_listener=False)
+        program = case['program']
+        if case.get('wrapped_kill'):
+            program = dict(program, wrapped_kill=True)  # kill() of the class answers with a future that resolves to the library's answer
+        closing = [{'on': on, 'occ': 1, 'do': ['close', None]} for on in ('on_process_finished', 'on_process_killed', 'on_process_excepted')] if case.get('closing_listener') else []
+        self.ex = Exec({'program': program, 'pid': 'P1', 'cleanup_raises': case.get('cleanup_raises'), 'listener': closing}, attach_listener=bool(closing))
         self.snaps = []
         self.replies = []
         self.recorded = []  # return values of the process's own pause/play/kill (in-step mode)
@@ -332,6 +352,10 @@ def execute(case):
     classes = ['mode:' + mode, 'comm:' + case['comm'], 'ctl:' + case.get('controller', 'thread')]
     if case.get('sub_fail'):
         classes.append('subscription-timeout:' + case['sub_fail'])
+    if case.get('closing_listener'):
+        classes.append('listener-closes-at-termination')
+    if case.get('wrapped_kill'):
+        classes.append('kill-answers-with-future')
     with Side(case, True) as a:
         if not a.started:
             return {'violations': [{'clause': 'construct', 'detail': repr(a.ex.construct_error)}], 'nontrivial': False, 'classes': classes}
